@@ -14,7 +14,7 @@ from . import terms as tm
 from .terms import T, INT, BOOL, STR, BYTES, J
 from .values import (Sym, JVal, SymType, Obj, PyList, PyDict, ClassVal, FuncVal, BoundMethod, Builtin,
                      ModuleVal, Opaque, Raise, Unsupported, SymObjSeq, kind_of, to_term, as_value,
-                     kind_sort, is_sym)
+                     kind_sort, is_sym, GenExp, is_genexp)
 from . import values as V
 from . import solve
 
@@ -897,7 +897,7 @@ class Interp:
                     yield from self.lib.index(self, st2, v, i)
 
     def ev_GeneratorExp(self, e, st):
-        yield st, ("genexp", e, st.frames[-1])
+        yield st, GenExp(e, st.frames[-1])
 
     def ev_ListComp(self, e, st):
         yield from self.lib.listcomp(self, st, e)
@@ -1227,6 +1227,15 @@ class Interp:
             st.locals[tgt.id] = v
             return [(st, ("normal",))]
         if isinstance(tgt, (ast.Tuple, ast.List)):
+            if is_genexp(v):
+                # a, b = (f(x) for x in ...): the generator is consumed at once
+                out = []
+                for st1, lst in self.lib.materialise(self, st, v):
+                    if isinstance(lst, Raise):
+                        out.append((st1, ("raise", lst.exc)))
+                    else:
+                        out.extend(self.assign(st1, tgt, lst))
+                return out
             if isinstance(v, PyList):
                 v = tuple(st.cell(v.oid))
             if isinstance(v, tuple) and len(v) == len(tgt.elts):
